@@ -186,11 +186,22 @@ func (m *Model) seqSortOfElemSort(es Sort) Sort {
 	return name
 }
 
+// typeKeyOwner: which named type first claimed a short key (package name + type
+// name); a second type with the same short key (sync.Mutex / internal/sync.Mutex)
+// gets a key built from its full package path.
+var typeKeyOwner = map[string]*types.TypeName{}
+
 func typeKeyName(t types.Type) string {
 	if n, ok := t.(*types.Named); ok {
-		o := n.Obj()
+		o := n.Origin().Obj()
 		if o.Pkg() != nil {
-			return o.Pkg().Name() + "_" + o.Name()
+			k := o.Pkg().Name() + "_" + o.Name()
+			if own, ok := typeKeyOwner[k]; !ok {
+				typeKeyOwner[k] = o
+			} else if own != o {
+				return strings.NewReplacer("/", "_", ".", "_", "-", "_").Replace(o.Pkg().Path()) + "_" + o.Name()
+			}
+			return k
 		}
 		return o.Name()
 	}
@@ -232,7 +243,12 @@ func (m *Model) structInfo(t types.Type) *structDT {
 func (m *Model) structSort(t types.Type) Sort { return m.structInfo(t).name }
 
 func (dt *structDT) ctor() string        { return "mk_" + dt.name }
-func (dt *structDT) sel(i int) string    { return dt.name + "_" + sanitize(dt.fields[i].name) }
+func (dt *structDT) sel(i int) string {
+	if dt.fields[i].name == "_" {
+		return fmt.Sprintf("%s_blank%d", dt.name, i) // several blank fields may coexist
+	}
+	return dt.name + "_" + sanitize(dt.fields[i].name)
+}
 func (dt *structDT) heapKey(i int) string { return "F_" + dt.named + "_" + sanitize(dt.fields[i].name) }
 
 // UF declares an uninterpreted function (idempotent).
